@@ -235,6 +235,31 @@ def inject_address_literal(rng, d):
                                           address_offset=-30000))
 
 
+def add_enum_reuse(rng, d):
+    """The documented reuse of a generated enum by name (`as Mode`) on other fields: an enum that is infallible because it
+    covers every pattern of its own field (no fallback variant, so TryFrom only) reused on a NARROWER, an EQUAL and (with
+    `try`) a WIDER field; one with a fallback reused infallibly on a wider field of the same integer type.  Every one of these
+    compiles (seed C19-7 needed the narrower one)."""
+    V = adef.mk_variant
+    w = rng.choice([2, 3])
+    cover = adef.mk_enum("ModeZq", [V("M" + "abcdefgh"[k]) for k in range(1 << w)], False)
+    fb = adef.mk_enum("KindZq", [V("Ka"), V("Kb", 5), V("Kc", rng.choice(["default", "catch_all"]))], False)
+    acc = lambda: rng.choice([None, "RW", "RO"])
+    fields = [adef.mk_field("mode", "uint", 0, w, conv=cover, access=acc()),
+              adef.mk_field("boot", "uint", 4, 4 + rng.randrange(1, w), conv=adef.mk_direct("ModeZq"), access=acc()),
+              adef.mk_field("same", "uint", 8, 8 + w, conv=adef.mk_direct("ModeZq"), access=acc()),
+              adef.mk_field("wide", "uint", 12, 12 + w + 1, conv=adef.mk_direct("ModeZq", True), access=acc()),
+              adef.mk_field("kind", "uint", 16, 19, conv=fb, access=acc()),
+              adef.mk_field("kinder", "uint", 20, 20 + rng.choice([2, 3, 6]), conv=adef.mk_direct("KindZq"), access=acc())]
+    rng.shuffle(fields)
+    cfg = d["config"]
+    at = cfg.get("register_address_type")
+    if at is None:
+        return
+    hi = adef.INT_RANGE[at][1]
+    d["objects"].append(adef.mk_register("Rzq", min(hi, 100) - 4, 32, fields, byte_order="LE", allow_address_overlap=None))
+
+
 def add_boundary_literal(rng, d):
     """An object whose address LITERAL sits exactly on / next to an integer-width boundary (every literal the emitter
     writes must be representable in the type of its position: internal address type, address type)."""
@@ -279,6 +304,8 @@ def run(ctx):
             add_boundary_literal(rng, d)
         if rng.random() < 0.4:
             d["config"]["defmt_feature"] = "defmt"
+        if rng.random() < 0.08:
+            add_enum_reuse(rng, d)
         if rng.random() < 0.10:
             inject_identifier_clash(rng, d)
         if rng.random() < 0.10:
